@@ -23,6 +23,12 @@
 (* listener that is closing or being rebalanced): Select picks it, the      *)
 (* dial reports ErrGone, the proxy removes it (dereg) and answers 502 -     *)
 (* the request is not sent anywhere else, forwarded or not.                 *)
+(* The accepting upstream of a node may also be the reconnection of a      *)
+(* listener whose previous upstream went away (rejoin): the old upstream   *)
+(* was removed by a request (ErrGone), the listener connected again, and   *)
+(* only then did the old session end and its handler's deferred removal    *)
+(* run - a removal of something no longer registered.  That history must   *)
+(* not matter: such a node serves locally like any other.                  *)
 (***************************************************************************)
 EXTENDS Integers, FiniteSets, Sequences
 
@@ -34,6 +40,7 @@ ExtKinds == {"none", "forged", "false", "hide"}
 VARIABLES has,     \* nodes with a local upstream for E that accepts connections
           gone,    \* nodes whose only registered upstream for E has gone away
           dereg,   \* nodes that removed their gone upstream from the registry
+          rejoin,  \* nodes in has whose upstream is a reconnection after a go-away (see above)
           bel,     \* bel[n] \subseteq Node \ {n}
           up,      \* nodes that accept connections
           at,      \* node handling the request now ("" when finished)
@@ -44,12 +51,13 @@ VARIABLES has,     \* nodes with a local upstream for E that accepts connections
           servedBy,
           entry, ext
 
-vars == <<has, gone, dereg, bel, up, at, fwd, hops, runs, outcome, servedBy, entry, ext>>
+vars == <<has, gone, dereg, rejoin, bel, up, at, fwd, hops, runs, outcome, servedBy, entry, ext>>
 
 Init ==
   /\ has \in SUBSET Node
   /\ gone \in {g \in SUBSET (Node \ has) : Cardinality(g) <= MaxGone}
   /\ dereg = {}
+  /\ rejoin \in {r \in SUBSET has : Cardinality(r) <= MaxGone}
   /\ bel \in [Node -> SUBSET Node]
   /\ \A n \in Node : n \notin bel[n]
   /\ up \in SUBSET Node
@@ -73,7 +81,7 @@ Handle ==
             IF m \in up
             THEN at' = m /\ fwd' = TRUE /\ hops' = hops + 1 /\ UNCHANGED <<outcome, servedBy, dereg>>
             ELSE outcome' = "502" /\ at' = "" /\ UNCHANGED <<servedBy, fwd, hops, dereg>>   \* dial fails
-  /\ UNCHANGED <<has, gone, bel, up, entry, ext>>
+  /\ UNCHANGED <<has, gone, rejoin, bel, up, entry, ext>>
 
 Next == Handle
 Spec == Init /\ [][Next]_vars /\ WF_vars(Next)
